@@ -11,8 +11,9 @@
 (*          -> ArrayOf.__setitem__ / fix_length                            *)
 (*   RPM    do_ReadPropertyMultipleRequest, read_property_to_result_element*)
 (*          (all / required / optional selectors)                          *)
-(*   Scan   (observation only) ReadProperty of index 0, 1..n, n+1, Big and *)
-(*          of the whole array                                             *)
+(*   Scan   (a client's walk over an array) ReadProperty of index 0, then   *)
+(*          -- if that answers a length n -- of 1..n, n+1, Big, and of the *)
+(*          whole property                                                 *)
 (*   exceptions -> Error / Reject: app.py Application.indication,          *)
 (*          appservice.py ApplicationServiceAccessPoint.indication         *)
 (*                                                                         *)
@@ -186,12 +187,13 @@ RPM(refs) ==
     /\ rb' = NoRes /\ UNCHANGED <<val, sch>>
 
 Scan(o, p) ==
-    /\ Decl(sch, o, p) /\ IsArr(sch, o, p) /\ val[o][p].st = "val"
-    /\ LET e == val[o][p].e
-           n == Len(e)
-       IN  /\ res' = ValR(e)
-           /\ out' = << El(0, o, p, 0, LenR(n)) >> \o [j \in 1..n |-> El(0, o, p, j, ValR(<<e[j]>>))]
-                     \o << El(0, o, p, n + 1, E_BadIndex), El(0, o, p, BigIdx, E_BadIndex) >>
+    /\ LET r0 == ReadRes(sch, val, o, p, 0) IN
+        /\ res' = ReadRes(sch, val, o, p, NoIdx)
+        /\ out' = IF r0.k # "len" THEN << El(0, o, p, 0, r0) >>
+                  ELSE LET e == val[o][p].e
+                           n == Len(e)
+                       IN  << El(0, o, p, 0, r0) >> \o [j \in 1..n |-> El(0, o, p, j, ValR(<<e[j]>>))]
+                           \o << El(0, o, p, n + 1, E_BadIndex), El(0, o, p, BigIdx, E_BadIndex) >>
     /\ act' = [op |-> "scan", o |-> o, p |-> p, i |-> NoIdx, x |-> NoVal, pr |-> 0, refs |-> <<>>]
     /\ rb' = NoRes /\ UNCHANGED <<val, sch>>
 
@@ -203,6 +205,11 @@ Next ==
 
 Spec == Init /\ [][Next]_vars
 Bound == TLCGet("level") <= MaxLevel
+\* What an operation answers and how it changes the store depends on the store only, and every property below is a
+\* step formula over <<val, act', res', rb', out', val'>> or an invariant of val: states that differ in the record of
+\* the LAST operation only have the same successors, so TLC may identify them (VIEW) -- it still evaluates the step
+\* formulas on every generated step.
+ViewVal == <<val, sch>>
 
 ----------------------------------------------------------------------------
 \* The property (C15) as step formulas over <<val, val', act', res', rb', out'>>: TLC proves them on the design
@@ -233,7 +240,7 @@ M_MatchingError ==
 \* an array that has a value answers index 0 with its length n, 1..n with its elements (the ones the whole read
 \* shows), n+1 and a large index with invalid-array-index
 M_ArrayIndexing ==
-    (act'.op = "scan" /\ Decl(sch, act'.o, act'.p) /\ val[act'.o][act'.p].st # "abs") =>
+    (act'.op = "scan" /\ Decl(sch, act'.o, act'.p) /\ IsArr(sch, act'.o, act'.p) /\ val[act'.o][act'.p].st # "abs") =>
         /\ Len(out') >= 1 /\ out'[1].i = 0 /\ out'[1].r.k = "len"
         /\ LET n == out'[1].r.n IN
              /\ Len(out') = n + 3
